@@ -66,6 +66,28 @@ package overloader
 //@   ensures[capped] q.tokens <= q.limit || q.tokens == q.once
 //@   ensures[refills] q.tokens >= 1
 
+// the refill goroutine: one per ticker, started for the ticker that is current
+// when it starts; a ticker that was replaced is stopped, the current one is not
+// (so refills go on, at the new interval only)
+//@ ghost global refillSpawns int
+//@ trusted (*qpsLimiter).startTicker
+//@   flags libframe
+//@   requires[runs-on-a-live-ticker] @C18 q.ticker != nil && !q.ticker.#stopped
+//@   spawnset ghost.refillSpawns = old(ghost.refillSpawns) + 1
+//@   modifies q.tokens
+//@ func (*qpsLimiter).update
+//@   property C18
+//@   flags libframe
+//@   requires q != nil && q.ticker != nil && !q.ticker.#stopped && q.once >= 1
+//@   requires?[interval-divides-a-second] qpsInterval > 0 && qpsInterval <= 1000000000
+//@   requires?[positive-limit] maxQPS >= 1
+//@   modifies q.limit, q.once, q.interval, q.ticker, ghost.refillSpawns, allof(type(time.Ticker))
+//@   ensures[current-ticker-keeps-ticking] q.ticker != nil && !q.ticker.#stopped
+//@   ensures[replaced-ticker-stopped] q.ticker != old(q.ticker) ==> old(q.ticker).#stopped
+//@   ensures[one-refill-goroutine-per-ticker] ghost.refillSpawns == old(ghost.refillSpawns) + (q.ticker != old(q.ticker) ? 1 : 0)
+//@   ensures[interval-change-replaces-ticker] qpsInterval != old(q.interval) ==> q.ticker != old(q.ticker)
+//@   ensures[limit-installed] q.limit == maxQPS && q.once >= 1
+
 // ---- C18: the plugin hooks --------------------------------------------------
 // A session holds a slot iff it is a key of o.slotHolders, whose value is the
 // limiter that granted the slot. #marked(l) counts the entries pointing at l;
